@@ -144,22 +144,22 @@ Proof.
   cbn [In] in Hc. split; [intros o _|split]; destruct Hc as [<-|[<-|[<-|[]]]]; try (destruct o); reflexivity.
 Qed.
 
-Lemma lex_follow_closer a (g : str) c (rest : str) : forallb is_ws g = true -> In c [41; 93; 44] ->
+Lemma lex_follow_closer a (g : str) c (rest : str) : forallb is_ws g = true -> In c [41; 93; 44; 91; 47] ->
   lex_follow a (g ++ c :: rest).
 Proof.
   intros Hg Hc. assert (Hs : stops is_ws (c :: rest)).
-  { cbn [In] in Hc. cbn [stops]. destruct Hc as [<-|[<-|[<-|[]]]]; reflexivity. }
+  { cbn [In] in Hc. cbn [stops]. destruct Hc as [<-|[<-|[<-|[<-|[<-|[]]]]]]; reflexivity. }
   assert (Hp : punct_hd (g ++ c :: rest)).
   { destruct g as [|x g]; [|apply ws_hd_punct; [discriminate|exact Hg]].
-    cbn [app punct_hd In] in *. intuition. }
+    cbn [app punct_hd In] in *. tauto. }
   pose proof (punct_name_stop _ Hp) as Hn.
   unfold lex_follow. rewrite (drop_ws_app _ _ Hg), (drop_ws_stop _ Hs). split; [|split; [|split]].
-  - intros _. split; [exact Hn|]. cbn [In] in Hc. destruct Hc as [<-|[<-|[<-|[]]]]; split; reflexivity.
+  - intros _. split; [exact Hn|]. cbn [In] in Hc. destruct Hc as [<-|[<-|[<-|[<-|[<-|[]]]]]]; split; reflexivity.
   - intros s _. apply name_stop_num_stop, Hn.
   - intros _. pose proof (name_stop_num_stop [] _ Hn) as [H1 H2]. specialize (H2 eq_refl).
     destruct (g ++ c :: rest) as [|y ys]; [exact I|]. cbn [stops] in *. rewrite H1. cbn [prefix] in H2.
     destruct (N.eqb_spec 46 y) as [<-|Hne]; [discriminate|]. rewrite N.eqb_sym. destruct (N.eqb_spec 46 y); [contradiction|reflexivity].
-  - intros _. cbn [In] in Hc. destruct Hc as [<-|[<-|[<-|[]]]]; reflexivity.
+  - intros _. cbn [In] in Hc. destruct Hc as [<-|[<-|[<-|[<-|[<-|[]]]]]]; reflexivity.
 Qed.
 
 (** ** shape A *)
